@@ -3,7 +3,71 @@ import corpora
 import genprop
 
 
+def nested_same_name():
+    """length markers reaching an inner field through the marker of its inline struct, next to an equally named outer field
+    (the Path of such entries is the open finding D7 of C07/C09; here only the verdict per marker is compared)"""
+    from synth import basic, case, fld, scenario, set_str, struct
+    s = basic("string")
+    vals = [b"", b"ab", b"abc", b"abcde", b"abcdef", "日本語日本語".encode(), "日本語".encode(), b"\xff\xfe\xfd\xfc\xfb\xfa", b"abcdefghij"]
+    acct = struct("Account", [fld("Name", ["//govalid:minlength=3"], s), fld("Owner", ["//govalid:maxlength=5"], nested=[fld("Name", [], s)]),
+                              fld("Tail", ["//govalid:length=3", "//govalid:minlength=1"], nested=[fld("Name", [], s), fld("Code", [], s)])],
+                  [case([set_str("Name", a), set_str("Owner.Name", b), set_str("Tail.Name", c), set_str("Tail.Code", a)])
+                   for a in vals[:6] for b in (vals[1], vals[5], vals[7], vals[8]) for c in (vals[2], vals[6], vals[4])])
+    return {"scenarios": [scenario("c03nest", [acct])]}
+
+
+def go_rune_count(b):
+    """utf8.RuneCountInString: every byte that is not part of a valid sequence counts as one"""
+    n = i = 0
+    while i < len(b):
+        c = b[i]
+        size = 1
+        if c >= 0xC2:
+            if c <= 0xDF:
+                need, lo, hi = 1, 0x80, 0xBF
+            elif c <= 0xEF:
+                need, lo, hi = 2, (0xA0 if c == 0xE0 else 0x80), (0x9F if c == 0xED else 0xBF)
+            elif c <= 0xF4:
+                need, lo, hi = 3, (0x90 if c == 0xF0 else 0x80), (0x8F if c == 0xF4 else 0xBF)
+            else:
+                need = 0
+            if need and i + need < len(b) + 0 and len(b) - i > need and lo <= b[i + 1] <= hi and all(0x80 <= x <= 0xBF for x in b[i + 2:i + 1 + need]):
+                size = 1 + need
+        n += 1
+        i += size
+    return n
+
+
+def check_nested(res, gr, results):
+    """verdict per marker for the inner fields reached through the marker of their inline struct"""
+    want_rules = {"Name": [("minlength", 3)], "Owner.Name": [("maxlength", 5)], "Tail.Name": [("length", 3), ("minlength", 1)], "Tail.Code": [("length", 3), ("minlength", 1)]}
+    n = 0
+    for m in gr.meta:
+        sc, st = genprop.find_struct(gr, m["key"])
+        for j, cs in enumerate(st["cases"]):
+            o = gr.obs.get("%s/%d" % (m["key"], j))
+            if o is None:
+                continue
+            vals = {s_["path"]: bytes.fromhex(s_["str"]) for s_ in cs["sets"]}
+            want = []
+            for path, rules in want_rules.items():
+                c = go_rune_count(vals.get(path, b""))
+                for r, k in rules:
+                    if (r == "minlength" and c < k) or (r == "maxlength" and c > k) or (r == "length" and c != k):
+                        want.append(r)
+            got = [] if o["VT"] == "nil" else [bytes.fromhex(p.split(",")[1]).decode() for p in o["VT"][2:].split(";")] if o["VT"].startswith("R:") else None
+            n += 1
+            if got is None or sorted(got) != sorted(want):
+                res.violation({"kind": "spec-violation", "struct": m["key"], "case_index": j, "case": cs, "observed": o["VT"], "expected_marker_types": sorted(want),
+                               "source": genprop.struct_source(gr, m["key"]),
+                               "what": "a length marker that reaches an inner field through the marker of its inline struct does not compare that field's own code-point count"})
+                return
+    res.coverage["nested_same_name_cases"] = n
+
+
 def check(res):
+    genprop.run(res, "C03", None, nested_same_name(), tag="c03n", spec=False, extra=lambda gr, r: check_nested(res, gr, r))
+    res.coverage["nested_same_name"] = {k: res.coverage.get(k) for k in ("programs", "evaluations", "certificates")}
     corpus = corpora.c03(res.seed, res.tier)
     genprop.run(res, "C03", PROPFILE, corpus)
 
